@@ -17,21 +17,21 @@ func init() {
 }
 
 var (
-	c17pBoth       = sim.RegStat("probe:c17-read-and-write-in-flight-together")
+	c17pBoth        = sim.RegStat("probe:c17-read-and-write-in-flight-together")
 	c17pWriteOnPong = sim.RegStat("probe:c17-app-write-started-while-control-reply-flush-pending")
 	c17pReadOnWrite = sim.RegStat("probe:c17-read-started-while-app-write-in-flight")
-	c17pPong       = sim.RegStat("probe:c17-automatic-pong")
+	c17pPong        = sim.RegStat("probe:c17-automatic-pong")
 )
 
 type c17Op struct {
-	id    int
-	kind  string
-	calls int
-	err   error
-	frame websocket.Frame
-	mt    websocket.MessageType
-	n     int
-	buf   []byte
+	id            int
+	kind          string
+	calls         int
+	err           error
+	frame         websocket.Frame
+	mt            websocket.MessageType
+	n             int
+	buf           []byte
 	closedAtStart bool
 }
 
